@@ -1,9 +1,13 @@
 /-
-  C06, ASCII85 round trip: `a85Decode` returns the payload of every conformant encoding.
+  C06, ASCII85 round trip: `a85Decode` (staging loop of the repaired `ASCII85Decode::transform` +
+  the model of `ascii85::decode`) returns the payload of every conformant encoding
+  (`IsA85Encoding`, ISO 32000-1 7.4.3), and the generators' encoder `encodeA85` is conformant.
+  Helpers live in `Parsley.C06.A85`; the results are `Parsley.C06.a85_roundtrip`, `a85_instance`,
+  `encodeA85_conformant`, `a85_decode_encode`.  Core only: `omega`, `simp`, `decide`.
 -/
 import Parsley.Model.Filters
 import Parsley.Spec.Filters
-namespace Parsley.C06
+namespace Parsley.C06.A85
 open Parsley Parsley.Filters Parsley.FiltersSpec
 
 /-! ### digit bytes -/
@@ -66,11 +70,11 @@ theorem loop_group (x0 x1 x2 x3 x4 : UInt8) (t res : Bytes)
       a85Loop t ⟨0, 0, UInt8.ofNat (c % 256) :: UInt8.ofNat (c / 256 % 256) :: UInt8.ofNat (c / 65536 % 256)
         :: UInt8.ofNat (c / 16777216) :: res⟩ := by
   simp only [dv] at hc
-  rw [loop_dig h0 _ _ _ (decodeDigit_lt4 _ _ _ _ (by omega) (by simp only [a85Table]; omega))]
-  rw [loop_dig h1 _ _ _ (decodeDigit_lt4 _ _ _ _ (by omega) (by simp only [a85Table]; omega))]
-  rw [loop_dig h2 _ _ _ (decodeDigit_lt4 _ _ _ _ (by omega) (by simp only [a85Table]; omega))]
-  rw [loop_dig h3 _ _ _ (decodeDigit_lt4 _ _ _ _ (by omega) (by simp only [a85Table]; omega))]
-  rw [loop_dig h4 _ _ _ (decodeDigit_4 _ _ _ (by simp only [a85Table]; omega))]
+  rw [loop_dig h0 _ _ _ (decodeDigit_lt4 _ _ _ _ (by omega) (by simp only [a85Table] <;> omega))]
+  rw [loop_dig h1 _ _ _ (decodeDigit_lt4 _ _ _ _ (by omega) (by simp only [a85Table] <;> omega))]
+  rw [loop_dig h2 _ _ _ (decodeDigit_lt4 _ _ _ _ (by omega) (by simp only [a85Table] <;> omega))]
+  rw [loop_dig h3 _ _ _ (decodeDigit_lt4 _ _ _ _ (by omega) (by simp only [a85Table] <;> omega))]
+  rw [loop_dig h4 _ _ _ (decodeDigit_4 _ _ _ (by simp only [a85Table] <;> omega))]
   simp only [a85Table]
   have : 0 + (x0.toNat - 33) * (85 * 85 * 85 * 85) + (x1.toNat - 33) * (85 * 85 * 85) + (x2.toNat - 33) * (85 * 85)
       + (x3.toNat - 33) * 85 + (x4.toNat - 33) = c := by omega
@@ -89,14 +93,14 @@ theorem pad_lt4 (f k ch : Nat) (res : Bytes) (rm : Nat) (hk0 : 0 < k) (hk : k < 
     a85Pad (f + 1) ⟨k, ch, res⟩ rm = a85Pad f ⟨k + 1, ch + 84 * a85Table k, res⟩ (rm + 1) := by
   have hk' : (k == 0) = false := by simp; omega
   rw [a85Pad, decodeDigit_lt4 _ _ _ _ hk (by rw [dv_u]; exact h)]
-  simp [hk', dv_u]
+  simp [hk']
 
 theorem pad_4 (f ch : Nat) (res : Bytes) (rm : Nat) (h : ch + 84 < 2 ^ 32) :
     a85Pad (f + 1) ⟨4, ch, res⟩ rm =
       a85Pad f ⟨0, 0, UInt8.ofNat ((ch + 84) % 256) :: UInt8.ofNat ((ch + 84) / 256 % 256)
         :: UInt8.ofNat ((ch + 84) / 65536 % 256) :: UInt8.ofNat ((ch + 84) / 16777216) :: res⟩ (rm + 1) := by
   rw [a85Pad, decodeDigit_4 _ _ _ (by rw [dv_u]; exact h)]
-  simp [dv_u]
+  simp
 
 /-- what `a85Crate` does once the trimming is over -/
 def run (s : Bytes) (st : A85St) : Res Bytes :=
@@ -123,61 +127,438 @@ theorem run_group (x0 x1 x2 x3 x4 : UInt8) (t res : Bytes)
         :: UInt8.ofNat (c / 16777216) :: res⟩ := by
   simp only [run]; rw [loop_group x0 x1 x2 x3 x4 t res h0 h1 h2 h3 h4 c hc hlt]
 
+theorem loop_step {d : UInt8} (hd : IsDig d) (t : Bytes) (k ch : Nat) (res : Bytes) (k' ch' : Nat)
+    (hk : k < 4) (hk' : k' = k + 1) (hch : ch' = ch + dv d * a85Table k) (hlt : ch' < 2 ^ 32) :
+    a85Loop (d :: t) ⟨k, ch, res⟩ = a85Loop t ⟨k', ch', res⟩ := by
+  subst hk' hch
+  exact loop_dig hd _ _ _ (decodeDigit_lt4 _ _ _ _ hk hlt)
+
+theorem loop_nil (s : A85St) : a85Loop [] s = .ok s := by rw [a85Loop]
+
+theorem pad_step (f f' k ch : Nat) (res : Bytes) (rm k' ch' rm' : Nat) (hf : f' = f + 1) (hk0 : 0 < k) (hk : k < 4)
+    (hk' : k' = k + 1) (hch : ch' = ch + 84 * a85Table k) (hrm : rm' = rm + 1) (hlt : ch' < 2 ^ 32) :
+    a85Pad f' ⟨k, ch, res⟩ rm = a85Pad f ⟨k', ch', res⟩ rm' := by
+  subst hf hk' hch hrm
+  exact pad_lt4 _ _ _ _ _ hk0 hk hlt
+
+theorem pad_last (f f' ch : Nat) (res : Bytes) (rm c rm' : Nat) (hf : f' = f + 1) (hc : c = ch + 84)
+    (hrm : rm' = rm + 1) (hlt : c < 2 ^ 32) :
+    a85Pad f' ⟨4, ch, res⟩ rm =
+      .ok (⟨0, 0, UInt8.ofNat (c % 256) :: UInt8.ofNat (c / 256 % 256)
+        :: UInt8.ofNat (c / 65536 % 256) :: UInt8.ofNat (c / 16777216) :: res⟩, rm') := by
+  subst hf hc hrm
+  rw [pad_4 _ _ _ _ hlt, pad_0]
+
+theorem run_of (s : Bytes) (st st' st'' : A85St) (rm : Nat) (h1 : a85Loop s st = .ok st')
+    (h2 : a85Pad 5 st' 0 = .ok (st'', rm)) (h3 : ¬ st''.result.length < rm) :
+    run s st = .ok (st''.result.drop rm).reverse := by
+  simp [run, h1, h2, h3]
+
 theorem run_part1 (x0 x1 : UInt8) (res : Bytes) (h0 : IsDig x0) (h1 : IsDig x1) (c : Nat)
     (hc : c = dv x0 * 52200625 + dv x1 * 614125 + 84 * 7225 + 84 * 85 + 84) (hlt : c < 2 ^ 32) :
     run [x0, x1] ⟨0, 0, res⟩ = .ok (res.reverse ++ [UInt8.ofNat (c / 16777216)]) := by
-  simp only [dv] at hc
-  simp only [run]
-  rw [loop_dig h0 _ _ _ (decodeDigit_lt4 _ _ _ _ (by omega) (by simp only [a85Table]; omega))]
-  rw [loop_dig h1 _ _ _ (decodeDigit_lt4 _ _ _ _ (by omega) (by simp only [a85Table]; omega))]
-  rw [a85Loop]
-  simp only
-  rw [pad_lt4 _ _ _ _ _ (by omega) (by omega) (by simp only [a85Table]; omega)]
-  rw [pad_lt4 _ _ _ _ _ (by omega) (by omega) (by simp only [a85Table]; omega)]
-  rw [pad_4 _ _ _ _ (by simp only [a85Table]; omega)]
-  rw [pad_0]
-  simp only [a85Table]
-  have : 0 + (x0.toNat - 33) * (85 * 85 * 85 * 85) + (x1.toNat - 33) * (85 * 85 * 85) + 84 * (85 * 85)
-      + 84 * 85 + 84 = c := by omega
-  rw [this]; simp
+  have e : a85Loop [x0, x1] ⟨0, 0, res⟩ = .ok ⟨2, dv x0 * 52200625 + dv x1 * 614125, res⟩ := by
+    rw [loop_step h0 _ 0 0 res 1 (dv x0 * 52200625) (by omega) (by omega) (by simp only [a85Table] <;> omega) (by omega),
+      loop_step h1 _ 1 _ res 2 (dv x0 * 52200625 + dv x1 * 614125) (by omega) (by omega)
+        (by simp only [a85Table] <;> omega) (by omega), loop_nil]
+  have p : a85Pad 5 ⟨2, dv x0 * 52200625 + dv x1 * 614125, res⟩ 0 =
+      .ok (⟨0, 0, UInt8.ofNat (c % 256) :: UInt8.ofNat (c / 256 % 256)
+        :: UInt8.ofNat (c / 65536 % 256) :: UInt8.ofNat (c / 16777216) :: res⟩, 3) := by
+    rw [pad_step 4 5 2 _ res 0 3 (dv x0 * 52200625 + dv x1 * 614125 + 84 * 7225) 1 (by omega) (by omega) (by omega)
+        (by omega) (by simp only [a85Table]) (by omega) (by omega),
+      pad_step 3 4 3 _ res 1 4 (dv x0 * 52200625 + dv x1 * 614125 + 84 * 7225 + 84 * 85) 2 (by omega) (by omega)
+        (by omega) (by omega) (by simp only [a85Table]) (by omega) (by omega),
+      pad_last 2 3 _ res 2 c 3 (by omega) (by omega) (by omega) hlt]
+  rw [run_of _ _ _ _ _ e p (by simp)]
+  simp
 
 theorem run_part2 (x0 x1 x2 : UInt8) (res : Bytes) (h0 : IsDig x0) (h1 : IsDig x1) (h2 : IsDig x2) (c : Nat)
     (hc : c = dv x0 * 52200625 + dv x1 * 614125 + dv x2 * 7225 + 84 * 85 + 84) (hlt : c < 2 ^ 32) :
     run [x0, x1, x2] ⟨0, 0, res⟩ =
       .ok (res.reverse ++ [UInt8.ofNat (c / 16777216), UInt8.ofNat (c / 65536 % 256)]) := by
-  simp only [dv] at hc
-  simp only [run]
-  rw [loop_dig h0 _ _ _ (decodeDigit_lt4 _ _ _ _ (by omega) (by simp only [a85Table]; omega))]
-  rw [loop_dig h1 _ _ _ (decodeDigit_lt4 _ _ _ _ (by omega) (by simp only [a85Table]; omega))]
-  rw [loop_dig h2 _ _ _ (decodeDigit_lt4 _ _ _ _ (by omega) (by simp only [a85Table]; omega))]
-  rw [a85Loop]
-  simp only
-  rw [pad_lt4 _ _ _ _ _ (by omega) (by omega) (by simp only [a85Table]; omega)]
-  rw [pad_4 _ _ _ _ (by simp only [a85Table]; omega)]
-  rw [pad_0]
-  simp only [a85Table]
-  have : 0 + (x0.toNat - 33) * (85 * 85 * 85 * 85) + (x1.toNat - 33) * (85 * 85 * 85) + (x2.toNat - 33) * (85 * 85)
-      + 84 * 85 + 84 = c := by omega
-  rw [this]; simp
+  have e : a85Loop [x0, x1, x2] ⟨0, 0, res⟩ =
+      .ok ⟨3, dv x0 * 52200625 + dv x1 * 614125 + dv x2 * 7225, res⟩ := by
+    rw [loop_step h0 _ 0 0 res 1 (dv x0 * 52200625) (by omega) (by omega) (by simp only [a85Table] <;> omega) (by omega),
+      loop_step h1 _ 1 _ res 2 (dv x0 * 52200625 + dv x1 * 614125) (by omega) (by omega)
+        (by simp only [a85Table] <;> omega) (by omega),
+      loop_step h2 _ 2 _ res 3 (dv x0 * 52200625 + dv x1 * 614125 + dv x2 * 7225) (by omega) (by omega)
+        (by simp only [a85Table] <;> omega) (by omega), loop_nil]
+  have p : a85Pad 5 ⟨3, dv x0 * 52200625 + dv x1 * 614125 + dv x2 * 7225, res⟩ 0 =
+      .ok (⟨0, 0, UInt8.ofNat (c % 256) :: UInt8.ofNat (c / 256 % 256)
+        :: UInt8.ofNat (c / 65536 % 256) :: UInt8.ofNat (c / 16777216) :: res⟩, 2) := by
+    rw [pad_step 4 5 3 _ res 0 4 (dv x0 * 52200625 + dv x1 * 614125 + dv x2 * 7225 + 84 * 85) 1 (by omega) (by omega)
+        (by omega) (by omega) (by simp only [a85Table]) (by omega) (by omega),
+      pad_last 3 4 _ res 1 c 2 (by omega) (by omega) (by omega) hlt]
+  rw [run_of _ _ _ _ _ e p (by simp)]
+  simp
 
 theorem run_part3 (x0 x1 x2 x3 : UInt8) (res : Bytes) (h0 : IsDig x0) (h1 : IsDig x1) (h2 : IsDig x2)
     (h3 : IsDig x3) (c : Nat)
     (hc : c = dv x0 * 52200625 + dv x1 * 614125 + dv x2 * 7225 + dv x3 * 85 + 84) (hlt : c < 2 ^ 32) :
     run [x0, x1, x2, x3] ⟨0, 0, res⟩ =
       .ok (res.reverse ++ [UInt8.ofNat (c / 16777216), UInt8.ofNat (c / 65536 % 256), UInt8.ofNat (c / 256 % 256)]) := by
-  simp only [dv] at hc
-  simp only [run]
-  rw [loop_dig h0 _ _ _ (decodeDigit_lt4 _ _ _ _ (by omega) (by simp only [a85Table]; omega))]
-  rw [loop_dig h1 _ _ _ (decodeDigit_lt4 _ _ _ _ (by omega) (by simp only [a85Table]; omega))]
-  rw [loop_dig h2 _ _ _ (decodeDigit_lt4 _ _ _ _ (by omega) (by simp only [a85Table]; omega))]
-  rw [loop_dig h3 _ _ _ (decodeDigit_lt4 _ _ _ _ (by omega) (by simp only [a85Table]; omega))]
-  rw [a85Loop]
-  simp only
-  rw [pad_4 _ _ _ _ (by simp only [a85Table]; omega)]
-  rw [pad_0]
-  simp only [a85Table]
-  have : 0 + (x0.toNat - 33) * (85 * 85 * 85 * 85) + (x1.toNat - 33) * (85 * 85 * 85) + (x2.toNat - 33) * (85 * 85)
-      + (x3.toNat - 33) * 85 + 84 = c := by omega
-  rw [this]; simp
+  have e : a85Loop [x0, x1, x2, x3] ⟨0, 0, res⟩ =
+      .ok ⟨4, dv x0 * 52200625 + dv x1 * 614125 + dv x2 * 7225 + dv x3 * 85, res⟩ := by
+    rw [loop_step h0 _ 0 0 res 1 (dv x0 * 52200625) (by omega) (by omega) (by simp only [a85Table] <;> omega) (by omega),
+      loop_step h1 _ 1 _ res 2 (dv x0 * 52200625 + dv x1 * 614125) (by omega) (by omega)
+        (by simp only [a85Table] <;> omega) (by omega),
+      loop_step h2 _ 2 _ res 3 (dv x0 * 52200625 + dv x1 * 614125 + dv x2 * 7225) (by omega) (by omega)
+        (by simp only [a85Table] <;> omega) (by omega),
+      loop_step h3 _ 3 _ res 4 (dv x0 * 52200625 + dv x1 * 614125 + dv x2 * 7225 + dv x3 * 85) (by omega) (by omega)
+        (by simp only [a85Table]) (by omega), loop_nil]
+  have p : a85Pad 5 ⟨4, dv x0 * 52200625 + dv x1 * 614125 + dv x2 * 7225 + dv x3 * 85, res⟩ 0 =
+      .ok (⟨0, 0, UInt8.ofNat (c % 256) :: UInt8.ofNat (c / 256 % 256)
+        :: UInt8.ofNat (c / 65536 % 256) :: UInt8.ofNat (c / 16777216) :: res⟩, 1) := by
+    rw [pad_last 4 5 _ res 0 c 1 (by omega) (by omega) (by omega) hlt]
+  rw [run_of _ _ _ _ _ e p (by simp)]
+  simp
+
+/-! ### base-85 arithmetic -/
+
+theorem dd (N : Nat) : N / 614125 / 85 = N / 52200625 ∧ N / 7225 / 85 = N / 614125 ∧ N / 85 / 85 = N / 7225 := by
+  simp [Nat.div_div_eq_div_mul]
+theorem top1 (N : Nat) (h : N < 2^32) : N/52200625%85 = N / 52200625 := by omega
+theorem top2 (N : Nat) (h : N < 2^32) : N/52200625%85*52200625 + N/614125%85*614125 + N % 614125 = N := by
+  have h1 := top1 N h
+  have h2 : N / 614125 % 85 + 85 * (N/52200625) = N / 614125 := by have := dd N; omega
+  have h3 : 614125 * (N / 614125) + N % 614125 = N := Nat.div_add_mod N 614125
+  rw [h1]
+  have core : ∀ q4 d3 q3 r N : Nat, d3 + 85 * q4 = q3 → 614125 * q3 + r = N → q4 * 52200625 + d3 * 614125 + r = N := by
+    intros; omega
+  exact core _ _ _ _ _ h2 h3
+theorem top3 (N : Nat) (h : N < 2^32) : N/52200625%85*52200625 + N/614125%85*614125 + N/7225%85*7225 + N % 7225 = N := by
+  have h1 := top2 N h
+  have h2 : N / 7225 % 85 + 85 * (N/614125) = N / 7225 := by have := dd N; omega
+  have h3 : 614125 * (N / 614125) + N % 614125 = N := Nat.div_add_mod N 614125
+  have h4 : 7225 * (N / 7225) + N % 7225 = N := Nat.div_add_mod N 7225
+  have core : ∀ S d2 q2 q3 r r2 N : Nat, S + r = N → d2 + 85 * q3 = q2 → 614125 * q3 + r = N → 7225 * q2 + r2 = N →
+      S + d2 * 7225 + r2 = N := by intros; omega
+  exact core _ _ _ _ _ _ _ h1 h2 h3 h4
+theorem top4 (N : Nat) (h : N < 2^32) : N/52200625%85*52200625 + N/614125%85*614125 + N/7225%85*7225 + N/85%85*85 + N % 85 = N := by
+  have h1 := top3 N h
+  have h2 : N / 85 % 85 + 85 * (N/7225) = N / 85 := by have := dd N; omega
+  have h3 : 7225 * (N / 7225) + N % 7225 = N := Nat.div_add_mod N 7225
+  have h4 : 85 * (N / 85) + N % 85 = N := Nat.div_add_mod N 85
+  have core : ∀ S d2 q2 q3 r r2 N : Nat, S + r = N → d2 + 85 * q3 = q2 → 7225 * q3 + r = N → 85 * q2 + r2 = N →
+      S + d2 * 85 + r2 = N := by intros; omega
+  exact core _ _ _ _ _ _ _ h1 h2 h3 h4
+theorem p1 (a : UInt8) (N c : Nat) (hN : N = a.toNat * 16777216) (hc : c = N/52200625%85*52200625 + N/614125%85*614125 + 84*7225+84*85+84) : c < 2^32 ∧ c / 16777216 = a.toNat := by
+  have ha := a.toNat_lt; have h2 := top2 N (by omega)
+  have hr : N % 614125 < 614125 := Nat.mod_lt _ (by omega)
+  have core : ∀ S r N c a : Nat, a < 2^8 → S + r = N → r < 614125 → N = a * 16777216 → c = S + 84*7225+84*85+84 →
+    c < 2^32 ∧ c / 16777216 = a := by intros; omega
+  exact core _ _ _ _ _ ha h2 hr hN hc
+theorem p2 (a b : UInt8) (N c : Nat) (hN : N = (a.toNat * 256 + b.toNat) * 65536) (hc : c = N/52200625%85*52200625 + N/614125%85*614125 + N/7225%85*7225+84*85+84) : c < 2^32 ∧ c / 16777216 = a.toNat ∧ c / 65536 % 256 = b.toNat := by
+  have ha := a.toNat_lt; have hb := b.toNat_lt; have h2 := top3 N (by omega)
+  have hr : N % 7225 < 7225 := Nat.mod_lt _ (by omega)
+  have core : ∀ S r N c a b : Nat, a < 2^8 → b < 2^8 → S + r = N → r < 7225 → N = (a * 256 + b) * 65536 → c = S +84*85+84 →
+    c < 2^32 ∧ c / 16777216 = a ∧ c / 65536 % 256 = b := by intros; omega
+  exact core _ _ _ _ _ _ ha hb h2 hr hN hc
+theorem p3 (a b d : UInt8) (N c : Nat) (hN : N = ((a.toNat * 256 + b.toNat) * 256 + d.toNat) * 256) (hc : c = N/52200625%85*52200625 + N/614125%85*614125 + N/7225%85*7225+N/85%85*85+84) : c < 2^32 ∧ c / 16777216 = a.toNat ∧ c / 65536 % 256 = b.toNat ∧ c / 256 % 256 = d.toNat := by
+  have ha := a.toNat_lt; have hb := b.toNat_lt; have hd := d.toNat_lt; have h2 := top4 N (by omega)
+  have hr : N % 85 < 85 := Nat.mod_lt _ (by omega)
+  have core : ∀ S r N c a b d : Nat, a < 2^8 → b < 2^8 → d < 2^8 → S + r = N → r < 85 → N = ((a * 256 + b) * 256 + d) * 256 → c = S +84 →
+    c < 2^32 ∧ c / 16777216 = a ∧ c / 65536 % 256 = b ∧ c / 256 % 256 = d := by intros; omega
+  exact core _ _ _ _ _ _ _ ha hb hd h2 hr hN hc
+theorem p4 (a b c d : UInt8) (N : Nat) (hN : N = ((a.toNat * 256 + b.toNat) * 256 + c.toNat) * 256 + d.toNat) :
+   N < 2^32 ∧ N / 16777216 = a.toNat ∧ N / 65536 % 256 = b.toNat ∧ N / 256 % 256 = c.toNat ∧ N % 256 = d.toNat := by
+  have := a.toNat_lt; have := b.toNat_lt; have := c.toNat_lt; have := d.toNat_lt; omega
+
+/-! ### the digits of the specification -/
+
+def dg (q : Nat) : UInt8 := UInt8.ofNat (q % 85 + 33)
+theorem dg_dig (q : Nat) : IsDig (dg q) := ofNat_dig _ (Nat.mod_lt _ (by omega))
+theorem dv_dg (q : Nat) : dv (dg q) = q % 85 := ofNat_dig_val _ (Nat.mod_lt _ (by omega))
+theorem digits5_eq (n : Nat) :
+    digits5 n = [dg (n / 52200625), dg (n / 614125), dg (n / 7225), dg (n / 85), dg n] := rfl
+
+theorem ofNat_eq {k : Nat} {a : UInt8} (h : k = a.toNat) : UInt8.ofNat k = a := by
+  rw [h, UInt8.ofNat_toNat]
+
+theorem zero_toNat : (0 : UInt8).toNat = 0 := by decide
+
+theorem run_full (a b c d : UInt8) (t res : Bytes) :
+    run (digits5 (be32 a b c d) ++ t) ⟨0, 0, res⟩ = run t ⟨0, 0, d :: c :: b :: a :: res⟩ := by
+  have h4 := p4 a b c d (be32 a b c d) rfl
+  rw [digits5_eq]
+  simp only [List.cons_append, List.nil_append]
+  rw [run_group _ _ _ _ _ t res (dg_dig _) (dg_dig _) (dg_dig _) (dg_dig _) (dg_dig _) (be32 a b c d)
+    (by simp only [dv_dg]; exact (top4 _ h4.1).symm) h4.1]
+  rw [ofNat_eq h4.2.1, ofNat_eq h4.2.2.1, ofNat_eq h4.2.2.2.1, ofNat_eq h4.2.2.2.2]
+
+theorem run_z (t res : Bytes) :
+    run (0x21 :: 0x21 :: 0x21 :: 0x21 :: 0x21 :: t) ⟨0, 0, res⟩ = run t ⟨0, 0, 0 :: 0 :: 0 :: 0 :: res⟩ := by
+  have h := run_full 0 0 0 0 t res
+  have e : digits5 (be32 0 0 0 0) = [0x21, 0x21, 0x21, 0x21, 0x21] := by decide
+  rw [e] at h; exact h
+
+theorem run_p1 (a : UInt8) (res : Bytes) :
+    run ((digits5 (be32 a 0 0 0)).take 2) ⟨0, 0, res⟩ = .ok (res.reverse ++ [a]) := by
+  have hN : be32 a 0 0 0 = a.toNat * 16777216 := by simp only [be32, zero_toNat]; omega
+  have e : (digits5 (be32 a 0 0 0)).take 2 = [dg (be32 a 0 0 0 / 52200625), dg (be32 a 0 0 0 / 614125)] := rfl
+  have h := p1 a (be32 a 0 0 0) _ hN rfl
+  rw [e, run_part1 _ _ res (dg_dig _) (dg_dig _) _ (by simp only [dv_dg]) h.1, ofNat_eq h.2]
+
+theorem run_p2 (a b : UInt8) (res : Bytes) :
+    run ((digits5 (be32 a b 0 0)).take 3) ⟨0, 0, res⟩ = .ok (res.reverse ++ [a, b]) := by
+  have hN : be32 a b 0 0 = (a.toNat * 256 + b.toNat) * 65536 := by simp only [be32, zero_toNat]; omega
+  have e : (digits5 (be32 a b 0 0)).take 3 =
+    [dg (be32 a b 0 0 / 52200625), dg (be32 a b 0 0 / 614125), dg (be32 a b 0 0 / 7225)] := rfl
+  have h := p2 a b (be32 a b 0 0) _ hN rfl
+  rw [e, run_part2 _ _ _ res (dg_dig _) (dg_dig _) (dg_dig _) _ (by simp only [dv_dg]) h.1,
+    ofNat_eq h.2.1, ofNat_eq h.2.2]
+
+theorem run_p3 (a b c : UInt8) (res : Bytes) :
+    run ((digits5 (be32 a b c 0)).take 4) ⟨0, 0, res⟩ = .ok (res.reverse ++ [a, b, c]) := by
+  have hN : be32 a b c 0 = ((a.toNat * 256 + b.toNat) * 256 + c.toNat) * 256 := by
+    simp only [be32, zero_toNat]; omega
+  have e : (digits5 (be32 a b c 0)).take 4 =
+    [dg (be32 a b c 0 / 52200625), dg (be32 a b c 0 / 614125), dg (be32 a b c 0 / 7225), dg (be32 a b c 0 / 85)] := rfl
+  have h := p3 a b c (be32 a b c 0) _ hN rfl
+  rw [e, run_part3 _ _ _ _ res (dg_dig _) (dg_dig _) (dg_dig _) (dg_dig _) _ (by simp only [dv_dg]) h.1,
+    ofNat_eq h.2.1, ofNat_eq h.2.2.1, ofNat_eq h.2.2.2]
+
+/-! ### staging -/
+
+/-- the text with every `z` written out as `!!!!!` -/
+def expand : Bytes → Bytes
+  | [] => []
+  | b :: t => if b == 0x7A then 0x21 :: 0x21 :: 0x21 :: 0x21 :: 0x21 :: expand t else b :: expand t
+
+theorem expand_dig {x : UInt8} (h : IsDig x) (t : Bytes) : expand (x :: t) = x :: expand t := by
+  simp [expand, dig_ne_z h]
+theorem expand_z (t : Bytes) : expand (0x7A :: t) = 0x21 :: 0x21 :: 0x21 :: 0x21 :: 0x21 :: expand t := by
+  simp [expand]
+
+theorem stage_filter (c st : Bytes) (g : Nat) :
+    a85Stage c st g = a85Stage (c.filter fun b => !Filters.isWs b) st g := by
+  induction c generalizing st g with
+  | nil => rfl
+  | cons b t ih =>
+    cases hb : Filters.isWs b
+    · simp only [List.filter_cons, hb, Bool.not_false, if_true]
+      rw [a85Stage, a85Stage]
+      simp only [hb, Bool.false_eq_true, if_false]
+      split
+      · rw [ih]
+      · split <;> exact ih _ _
+    · simp only [List.filter_cons, hb, Bool.not_true, Bool.false_eq_true, if_false]
+      rw [a85Stage]; simp only [hb, if_true]; exact ih _ _
+
+theorem stage_dig {x : UInt8} (h : IsDig x) (t st : Bytes) (g g' : Nat) (hg : g' = (g + 1) % 5) :
+    a85Stage (x :: t) st g = a85Stage t (x :: st) g' := by
+  subst hg; rw [a85Stage]; simp [dig_not_ws h, dig_ne_z h, dig_ne_tilde h]
+
+theorem stage_z (t st : Bytes) :
+    a85Stage (0x7A :: t) st 0 = a85Stage t (0x21 :: 0x21 :: 0x21 :: 0x21 :: 0x21 :: st) 0 := by
+  rw [a85Stage]; simp [show Filters.isWs 0x7A = false by decide]
+
+theorem stage_end (st : Bytes) (g : Nat) :
+    a85Stage [0x7E, 0x3E] st g = .ok (st.reverse ++ [0x7E, 0x3E]) := by
+  simp [a85Stage, show Filters.isWs 0x7E = false by decide, show Filters.isWs 0x3E = false by decide]
+
+theorem stage_groups {p s : Bytes} (h : A85Groups p s) : ∀ st : Bytes,
+    a85Stage (s ++ [0x7E, 0x3E]) st 0 = .ok (st.reverse ++ (expand s ++ [0x7E, 0x3E])) := by
+  induction h with
+  | nil => intro st; exact stage_end st 0
+  | z _ ih => intro st; rw [List.cons_append, stage_z, ih, expand_z]; simp
+  | @full a b c d p s _ ih =>
+    intro st
+    rw [digits5_eq]
+    simp only [List.cons_append, List.nil_append]
+    rw [stage_dig (dg_dig _) _ _ 0 1 rfl, stage_dig (dg_dig _) _ _ 1 2 rfl, stage_dig (dg_dig _) _ _ 2 3 rfl,
+      stage_dig (dg_dig _) _ _ 3 4 rfl, stage_dig (dg_dig _) _ _ 4 0 rfl, ih,
+      expand_dig (dg_dig _), expand_dig (dg_dig _), expand_dig (dg_dig _), expand_dig (dg_dig _),
+      expand_dig (dg_dig _)]
+    simp
+  | @part1 a =>
+    intro st
+    have e : (digits5 (be32 a 0 0 0)).take 2 = [dg (be32 a 0 0 0 / 52200625), dg (be32 a 0 0 0 / 614125)] := rfl
+    rw [e]
+    simp only [List.cons_append, List.nil_append]
+    rw [stage_dig (dg_dig _) _ _ 0 1 rfl, stage_dig (dg_dig _) _ _ 1 2 rfl, stage_end,
+      expand_dig (dg_dig _), expand_dig (dg_dig _)]
+    simp [expand]
+  | @part2 a b =>
+    intro st
+    have e : (digits5 (be32 a b 0 0)).take 3 =
+      [dg (be32 a b 0 0 / 52200625), dg (be32 a b 0 0 / 614125), dg (be32 a b 0 0 / 7225)] := rfl
+    rw [e]
+    simp only [List.cons_append, List.nil_append]
+    rw [stage_dig (dg_dig _) _ _ 0 1 rfl, stage_dig (dg_dig _) _ _ 1 2 rfl, stage_dig (dg_dig _) _ _ 2 3 rfl,
+      stage_end, expand_dig (dg_dig _), expand_dig (dg_dig _), expand_dig (dg_dig _)]
+    simp [expand]
+  | @part3 a b c =>
+    intro st
+    have e : (digits5 (be32 a b c 0)).take 4 =
+      [dg (be32 a b c 0 / 52200625), dg (be32 a b c 0 / 614125), dg (be32 a b c 0 / 7225), dg (be32 a b c 0 / 85)] := rfl
+    rw [e]
+    simp only [List.cons_append, List.nil_append]
+    rw [stage_dig (dg_dig _) _ _ 0 1 rfl, stage_dig (dg_dig _) _ _ 1 2 rfl, stage_dig (dg_dig _) _ _ 2 3 rfl,
+      stage_dig (dg_dig _) _ _ 3 4 rfl, stage_end, expand_dig (dg_dig _), expand_dig (dg_dig _),
+      expand_dig (dg_dig _), expand_dig (dg_dig _)]
+    simp [expand]
+
+theorem digits5_dig (n : Nat) : ∀ b ∈ digits5 n, IsDig b := by
+  rw [digits5_eq]; simp only [List.forall_mem_cons]
+  exact ⟨dg_dig _, dg_dig _, dg_dig _, dg_dig _, dg_dig _, by simp⟩
+
+theorem expand_append_digs (L t : Bytes) (h : ∀ b ∈ L, IsDig b) : expand (L ++ t) = L ++ expand t := by
+  induction L with
+  | nil => rfl
+  | cons x L ih =>
+    rw [List.forall_mem_cons] at h
+    rw [List.cons_append, expand_dig h.1, ih h.2, List.cons_append]
+
+theorem expand_digs (L : Bytes) (h : ∀ b ∈ L, IsDig b) : expand L = L := by
+  have := expand_append_digs L [] h
+  simpa [expand] using this
+
+theorem take_digits5_dig (k n : Nat) : ∀ b ∈ (digits5 n).take k, IsDig b :=
+  fun b hb => digits5_dig n b (List.mem_of_mem_take hb)
+
+theorem dig_33 : IsDig 0x21 := ⟨by decide, by decide⟩
+
+theorem expand_props {p s : Bytes} (h : A85Groups p s) :
+    (∀ b ∈ expand s, IsDig b) ∧ (expand s).length ≠ 1 := by
+  induction h with
+  | nil => simp [expand]
+  | z _ ih =>
+    rw [expand_z]; simp only [List.forall_mem_cons]
+    exact ⟨⟨dig_33, dig_33, dig_33, dig_33, dig_33, ih.1⟩, by simp⟩
+  | @full a b c d p s _ ih =>
+    rw [expand_append_digs _ _ (digits5_dig _)]
+    refine ⟨?_, by rw [digits5_eq]; simp⟩
+    intro x hx
+    rcases List.mem_append.mp hx with hx | hx
+    · exact digits5_dig _ _ hx
+    · exact ih.1 _ hx
+  | part1 => rw [expand_digs _ (take_digits5_dig _ _)]; exact ⟨take_digits5_dig _ _, by rw [digits5_eq]; simp⟩
+  | part2 => rw [expand_digs _ (take_digits5_dig _ _)]; exact ⟨take_digits5_dig _ _, by rw [digits5_eq]; simp⟩
+  | part3 => rw [expand_digs _ (take_digits5_dig _ _)]; exact ⟨take_digits5_dig _ _, by rw [digits5_eq]; simp⟩
+
+/-! ### the trimming of `ascii85::decode` leaves a staged conformant text alone -/
+
+theorem trimGtRev_dig : ∀ (L : Bytes), (∀ b ∈ L, IsDig b) → trimGtRev L = L
+  | [], _ => rfl
+  | [_], _ => rfl
+  | a :: b :: t, h => by
+    rw [trimGtRev]; simp [dig_ne_tilde (h b (by simp))]
+
+theorem trimLt_stage : ∀ (L : Bytes), (∀ b ∈ L, IsDig b) → L.length ≠ 1 →
+    trimLt (L ++ [0x7E, 0x3E]) = L ++ [0x7E, 0x3E]
+  | [], _, _ => by simp [trimLt]
+  | [_], _, hl => absurd rfl hl
+  | a :: b :: t, h, _ => by
+    rw [List.cons_append, List.cons_append, trimLt]; simp [dig_ne_tilde (h b (by simp))]
+
+theorem dropWhile_stage : ∀ (L : Bytes), (∀ b ∈ L, IsDig b) →
+    (L ++ [0x7E, 0x3E]).dropWhile isUniWs = L ++ [0x7E, 0x3E]
+  | [], _ => by simp [show isUniWs 0x7E = false by decide]
+  | a :: t, h => by
+    rw [List.cons_append, List.dropWhile_cons]; simp [dig_not_uniws (h a (by simp))]
+
+theorem crate_run (stage : Bytes) :
+    a85Crate stage = run (((trimGtRev ((trimLt (stage.dropWhile isUniWs)).reverse.dropWhile isUniWs)).reverse).filter
+      (fun c => !isAsciiWs c)) ⟨0, 0, []⟩ := rfl
+
+theorem crate_eq (L : Bytes) (h : ∀ b ∈ L, IsDig b) (hl : L.length ≠ 1) :
+    a85Crate (L ++ [0x7E, 0x3E]) = run L ⟨0, 0, []⟩ := by
+  have e : (L ++ [0x7E, 0x3E]).reverse = 0x3E :: 0x7E :: L.reverse := by simp
+  have hr : ∀ b ∈ L.reverse, IsDig b := fun b hb => h b (List.mem_reverse.mp hb)
+  have hf : L.filter (fun c => !isAsciiWs c) = L :=
+    List.filter_eq_self.mpr fun b hb => by simp [dig_not_asciiws (h b hb)]
+  rw [crate_run, dropWhile_stage L h, trimLt_stage L h hl, e, List.dropWhile_cons]
+  simp only [show isUniWs 0x3E = false by decide, Bool.false_eq_true, if_false]
+  rw [trimGtRev]
+  simp only [show ((0x3E : UInt8) == 0x3E && (0x7E : UInt8) == 0x7E) = true by decide, if_true]
+  rw [trimGtRev_dig _ hr, List.reverse_reverse, hf]
+
+/-! ### the loop over the groups -/
+
+theorem run_groups {p s : Bytes} (h : A85Groups p s) : ∀ res : Bytes,
+    run (expand s) ⟨0, 0, res⟩ = .ok (res.reverse ++ p) := by
+  induction h with
+  | nil => intro res; rw [expand, run_nil]; simp
+  | z _ ih => intro res; rw [expand_z, run_z, ih]; simp
+  | full _ ih => intro res; rw [expand_append_digs _ _ (digits5_dig _), run_full, ih]; simp
+  | part1 => intro res; rw [expand_digs _ (take_digits5_dig _ _), run_p1]
+  | part2 => intro res; rw [expand_digs _ (take_digits5_dig _ _), run_p2]
+  | part3 => intro res; rw [expand_digs _ (take_digits5_dig _ _), run_p3]
+
+/-! ### the executable encoder of the generators is conformant -/
+
+theorem be32_zero {a b c d : UInt8} (h : be32 a b c d = 0) : a = 0 ∧ b = 0 ∧ c = 0 ∧ d = 0 := by
+  simp only [be32] at h
+  refine ⟨?_, ?_, ?_, ?_⟩ <;> apply UInt8.toNat_inj.mp <;> rw [zero_toNat] <;> omega
+
+theorem encodeA85Groups_conformant (useZ : Nat → Bool) : ∀ (i : Nat) (p : Bytes),
+    A85Groups p (encodeA85Groups useZ i p)
+  | i, a :: b :: c :: d :: t => by
+    rw [encodeA85Groups]
+    split
+    · rename_i h
+      simp only [Bool.and_eq_true, beq_iff_eq] at h
+      obtain ⟨rfl, rfl, rfl, rfl⟩ := be32_zero h.1
+      exact .z (encodeA85Groups_conformant useZ (i + 1) t)
+    · exact .full (encodeA85Groups_conformant useZ (i + 1) t)
+  | _, [a, b, c] => by simp only [encodeA85Groups]; exact .part3
+  | _, [a, b] => by simp only [encodeA85Groups]; exact .part2
+  | _, [a] => by simp only [encodeA85Groups]; exact .part1
+  | _, [] => by simp only [encodeA85Groups]; exact .nil
+
+theorem groups_no_ws {p s : Bytes} (h : A85Groups p s) : ∀ b ∈ s, Filters.isWs b = false := by
+  induction h with
+  | nil => simp
+  | z _ ih => rw [List.forall_mem_cons]; exact ⟨by decide, ih⟩
+  | full _ ih =>
+    intro x hx
+    rcases List.mem_append.mp hx with hx | hx
+    · exact dig_not_ws (digits5_dig _ _ hx)
+    · exact ih _ hx
+  | part1 => exact fun b hb => dig_not_ws (take_digits5_dig _ _ b hb)
+  | part2 => exact fun b hb => dig_not_ws (take_digits5_dig _ _ b hb)
+  | part3 => exact fun b hb => dig_not_ws (take_digits5_dig _ _ b hb)
+
+theorem groups_encoding {p s : Bytes} (h : A85Groups p s) : IsA85Encoding (s ++ [0x7E, 0x3E]) p := by
+  refine ⟨s, h, ?_⟩
+  show (s ++ [0x7E, 0x3E]).filter (fun b => !Filters.isWs b) = s ++ [0x7E, 0x3E]
+  rw [List.filter_append, List.filter_eq_self.mpr fun b hb => by simp [groups_no_ws h b hb]]
+  rfl
+
+end Parsley.C06.A85
+
+/-! ### the round trip -/
+
+namespace Parsley.C06
+open Parsley Parsley.Filters Parsley.FiltersSpec Parsley.C06.A85
+
+/-- ASCII85: decoding any conformant encoding (any white-space interleaving, `z` or `!!!!!` for zero
+    groups, final partial group of 2-4 digits) returns exactly the payload. -/
+theorem a85_roundtrip (content payload : Bytes) (h : IsA85Encoding content payload) :
+    a85Decode content = .ok payload := by
+  obtain ⟨text, hg, hs⟩ := h
+  have hs' : content.filter (fun b => !Filters.isWs b) = text ++ [0x7E, 0x3E] := hs
+  have h1 : a85Stage content [] 0 = .ok (expand text ++ [0x7E, 0x3E]) := by
+    rw [stage_filter, hs', stage_groups hg]; simp
+  have hp := expand_props hg
+  have h2 : a85Crate (expand text ++ [0x7E, 0x3E]) = .ok payload := by
+    rw [crate_eq _ hp.1 hp.2, run_groups hg]; simp
+  simp [a85Decode, h1, h2]
+
+/-- non-vacuity: `z 9\n`+"`"+`~>` (white space inside, a `z` group, a two-digit final group) is a
+    conformant encoding of `00 00 00 00 4D` -/
+theorem a85_instance : IsA85Encoding [0x7A, 0x20, 57, 0x0A, 96, 0x7E, 0x3E] [0, 0, 0, 0, 77] :=
+  ⟨0x7A :: (digits5 (be32 77 0 0 0)).take 2, .z .part1, by decide⟩
+
+example : a85Decode [0x7A, 0x20, 57, 0x0A, 96, 0x7E, 0x3E] = .ok [0, 0, 0, 0, 77] :=
+  a85_roundtrip _ _ a85_instance
+
+theorem encodeA85_conformant (useZ : Nat → Bool) (p : Bytes) : IsA85Encoding (encodeA85 useZ p) p :=
+  groups_encoding (encodeA85Groups_conformant useZ 0 p)
+
+/-- hence the model decodes whatever the generator's encoder writes -/
+theorem a85_decode_encode (useZ : Nat → Bool) (p : Bytes) : a85Decode (encodeA85 useZ p) = .ok p :=
+  a85_roundtrip _ _ (encodeA85_conformant useZ p)
 
 end Parsley.C06
